@@ -11,6 +11,7 @@ import (
 	"strings"
 	"sync"
 	"sync/atomic"
+	"time"
 
 	"gopkg.in/yaml.v2"
 	"verifharness/c11lib"
@@ -21,6 +22,9 @@ type target struct {
 	grpc   *c11lib.Server
 	hits   atomic.Int64
 	broken atomic.Bool
+	// delayMs (round 4, do=1): every request is answered after this many milliseconds — instances fall behind the
+	// schedule, and with `discard_overflow` the instance loop reports "discarded" samples instead of shooting
+	delayMs atomic.Int64
 
 	// script (mode=isolate): the X-Tok values served to the successive requests of a path containing "/tok", in order of
 	// arrival ("" = no X-Tok header at all); echoes: what the requests of a path containing "/echo" carried
@@ -108,6 +112,9 @@ func newTarget(kind string) (*target, string, error) {
 			panic(http.ErrAbortHandler)
 		}
 		hit := t.hits.Add(1)
+		if d := t.delayMs.Load(); d > 0 {
+			time.Sleep(time.Duration(d) * time.Millisecond)
+		}
 		if tok, ok := t.tokFor(hit, r.URL.Path); ok {
 			w.Header().Set("X-Tok", tok)
 		}
@@ -575,6 +582,45 @@ func httpAmmoFile(kind string, kv map[string]string) string {
 	return ""
 }
 
+// gunOptions (round 4): go=<letters> switches on options of the gun that change what a Shoot does with the request, the
+// response and the sample — and that interact with each other and with the shared client:
+//
+//	t  httptrace.trace   (per-shot ClientTrace whose hooks run on transport goroutines; four more sample fields)
+//	d  httptrace.dump    (request and response dumped, two more sample fields)
+//	a  answlog, filter all (the request body is read and replaced before the shot, both sides dumped to ONE log file
+//	   that every gun of the pool writes)
+//	g  auto-tag for every ammo (the sample's tag is extended from the request's URL)
+//
+// http guns (http, http/scenario) take all of them, the gRPC guns `a` only.
+func gunOptions(kind, letters string, gun map[string]any) {
+	if letters == "" {
+		return
+	}
+	isHTTP := !strings.HasPrefix(kind, "grpc")
+	trace := map[string]any{}
+	for _, c := range letters {
+		switch c {
+		case 't':
+			if isHTTP {
+				trace["trace"] = true
+			}
+		case 'd':
+			if isHTTP {
+				trace["dump"] = true
+			}
+		case 'a':
+			gun["answlog"] = map[string]any{"enabled": true, "filter": "all", "path": c11lib.WriteFile(".answ", "")}
+		case 'g':
+			if isHTTP {
+				gun["auto-tag"] = map[string]any{"enabled": true, "uri-elements": 1, "no-tag-only": false}
+			}
+		}
+	}
+	if len(trace) > 0 {
+		gun["httptrace"] = trace
+	}
+}
+
 // poolYAML builds the pool description for one kind.
 func poolYAML(kind, addr string, kv map[string]string, n int, rps map[string]any) string {
 	gun := map[string]any{"target": addr}
@@ -645,6 +691,7 @@ func poolYAML(kind, addr string, kv map[string]string, n int, rps map[string]any
 				`{"tag":"c","call":"target.TargetService.Nope","metadata":{},"payload":{}}`+"\n"+
 				`{"tag":"d","call":"target.TargetService.List","metadata":{"k":"v"},"payload":{"user_id":5,"token":"x"}}`+"\n")
 	}
+	gunOptions(kind, kv["go"], gun)
 	result := map[string]any{"type": "discard"}
 	if kv["agg"] == "phout" {
 		// the real phout aggregator: reported samples go back to the package-level sample pool
@@ -655,6 +702,11 @@ func poolYAML(kind, addr string, kv map[string]string, n int, rps map[string]any
 		"result":  result,
 		"rps":     []any{rps},
 		"startup": map[string]any{"type": "once", "times": n},
+	}
+	if kv["do"] == "1" {
+		// round 4: the instance loop's other branch — an instance that is more than two seconds behind the schedule
+		// reports a "discarded" sample instead of shooting
+		pool["discard_overflow"] = true
 	}
 	b, _ := yaml.Marshal(map[string]any{"pools": []any{pool}, "log": map[string]any{"level": "error"}})
 	return string(b)
